@@ -43,8 +43,10 @@ var c05Exprs = map[string]struct {
 }{
 	"lit0": {"0", 0}, "litfalse": {"false", false}, "litempty": {"''", ""}, "lit7": {"7", 7}, "littrue": {"true", true}, "litstr": {"'s'", "s"},
 	"notT": {"!boolT", false}, "notF": {"!boolF", true}, "cmpF": {"int7>9", false}, "cmpT": {"int7>3", true}, "sum": {"int7 + 1", 8},
+	// an object literal is a value of its own: a map of its keys with the typed values
+	"obj": {"{k: int7, s: 'x'}", map[string]any{"k": 7, "s": "x"}},
 }
-var c05ExprNames = []string{"lit0", "litfalse", "litempty", "lit7", "littrue", "litstr", "notT", "notF", "cmpF", "cmpT", "sum"}
+var c05ExprNames = []string{"lit0", "litfalse", "litempty", "lit7", "littrue", "litstr", "notT", "notF", "cmpF", "cmpT", "sum", "obj"}
 
 var c05BoundNames = []string{"int7", "float", "str", "boolT", "slice", "map", "jsonarr", "jsonobj", "zero", "boolF", "empty", "nilv", "missing"}
 
